@@ -1342,8 +1342,6 @@ class FuncEscapePattern(ValueFunc):
                 "the result can be used in pattern matching to match",
                 "the literal string.",
                 "",
-                "Currently, the | and . characters are escaped.",
-                "",
                 ": escape_pattern('|') ==> '\\\\|'",
                 ": escape_pattern('|.|') ==> '\\\\|\\\\.\\\\|'",
             ]
@@ -1356,7 +1354,7 @@ class FuncEscapePattern(ValueFunc):
         if args.isNull("s"):
             return NULL
         value = args.getString("s").value
-        return ValueString(value.replace("|", "\\|").replace(".", "\\."))
+        return ValueString(re.escape(value))
 
 
 class FuncEval(ValueFunc):
